@@ -62,7 +62,22 @@ var Ops = []struct {
 	// first and a pattern in the second
 	{"generate-rep-literal", func() string { return generateDigest(specRepLiteral, false) }},
 	{"generate-rep-pattern", func() string { return generateDigest(specRepPattern, false) }},
+	// operations that fail midway, each at a different stage: whatever they had begun must not stay behind
+	{"fail-pattern-unclosed-groups", func() string { return patternDigest(`((a|b`) }},
+	{"fail-pattern-deep-unclosed", func() string { return patternDigest(strings.Repeat("(", 40) + "a") }},
+	{"fail-pattern-bracket", func() string { return patternDigest(`x[a-`) }},
+	{"fail-pattern-ranges", func() string { return patternDigest(`(x{3,1}|[z-a]`) }},
+	{"fail-ast-unclosed-groups", func() string { return astDigest(`((a|b`) }},
+	{"fail-ast-class", func() string { return astDigest(`(\p{Nope}[^`) }},
+	{"fail-spec-lexical", func() string { return parseDigest("grammar g ;\nAA = /[a-c]+/ ;\nstart = ( [ { \"a\" \"b\" # ;\n", false, false) }},
+	{"fail-spec-syntax", func() string { return parseDigest("grammar g ;\n@left \"a\" ;\nstart = ( [ {{ \"a\" \"b\" }} [ \"a\" \"b\" ;\n", false, false) }},
+	{"fail-spec-unterminated", func() string { return parseDigest("grammar g ;\nstart = [ \"a\" \"b\" ] \"abc ;\n", false, false) }},
+	{"fail-spec-bad-pattern", func() string { return parseDigest("grammar g ;\nAA = /((a/ ;\nBB = /x{3,1}/ ;\nstart = AA BB ;\n", true, false) }},
 }
+
+// Fails reports whether an operation is one of those that fail midway; Cheap whether it may be repeated many times.
+func Fails(i int) bool { return strings.HasPrefix(Ops[i].Name, "fail-") }
+func Cheap(i int) bool { return !strings.HasPrefix(Ops[i].Name, "generate-") }
 
 const (
 	specRepLiteral = "grammar rep ;\nREP = \"a+\" ;\nNUMBER = /[0-9]+/ ;\nstart = REP NUMBER \";\" ;\n"
